@@ -286,6 +286,8 @@ struct Routes {
     function: String,
     call: String,
     compound: Option<(String, String)>, // (program, initial literal)
+    /// one operand a parameter, the other a literal (partially constant operations)
+    mixed: Vec<String>,
 }
 
 impl Property for C08Prop {
@@ -348,6 +350,11 @@ impl Property for C08Prop {
                     Routes {
                         folded: format!("{} {op} {}", lit_int(a), lit_int(b)),
                         call: format!("f := {function}; f({}, {})", lit_int(a), lit_int(b)),
+                        mixed: vec![
+                            format!("f := (a: int) -> {ret} {{ return a {op} {}; }}; f({})", lit_int(b), lit_int(a)),
+                            format!("f := (b: int) -> {ret} {{ return {} {op} b; }}; f({})", lit_int(a), lit_int(b)),
+                            format!("a := mut int {}; *a {op} {}", lit_int(a), lit_int(b)),
+                        ],
                         function,
                         compound,
                     },
@@ -370,6 +377,10 @@ impl Property for C08Prop {
                     Routes {
                         folded: format!("{} {op} {}", lit_float(a), lit_float(b)),
                         call: format!("f := {function}; f({}, {})", lit_float(a), lit_float(b)),
+                        mixed: vec![
+                            format!("f := (a: float) -> {ret} {{ return a {op} {}; }}; f({})", lit_float(b), lit_float(a)),
+                            format!("f := (b: float) -> {ret} {{ return {} {op} b; }}; f({})", lit_float(a), lit_float(b)),
+                        ],
                         function,
                         compound,
                     },
@@ -387,6 +398,10 @@ impl Property for C08Prop {
                     Routes {
                         folded: format!("{a} {op} {b}"),
                         call: format!("f := {function}; f({a}, {b})"),
+                        mixed: vec![
+                            format!("f := (a: bool) -> bool {{ return a {op} {b}; }}; f({a})"),
+                            format!("f := (b: bool) -> bool {{ return {a} {op} b; }}; f({b})"),
+                        ],
                         function,
                         compound,
                     },
@@ -407,6 +422,7 @@ impl Property for C08Prop {
                         call: format!("f := {function}; f({})", lit_int(a)),
                         function,
                         compound: None,
+                        mixed: vec![],
                     },
                     vec![Variable::Int(a)],
                 )
@@ -422,6 +438,7 @@ impl Property for C08Prop {
                         call: format!("f := {function}; f({})", lit_float(a)),
                         function,
                         compound: None,
+                        mixed: vec![],
                     },
                     vec![Variable::Float(a)],
                 )
@@ -437,6 +454,7 @@ impl Property for C08Prop {
                         call: format!("f := {function}; f({a})"),
                         function,
                         compound: None,
+                        mixed: vec![],
                     },
                     vec![Variable::Bool(a)],
                 )
@@ -489,6 +507,18 @@ impl Property for C08Prop {
                 format!("C08:{kind}:{op}:call"),
                 format!("`{}`: expected {}, got {}", routes.call, expected.show(), o.short()),
             );
+        }
+        // routes 3b: one operand constant, the other not (partial folding must not change anything;
+        // an always-failing constant operand may be reported at parse time)
+        for text in &routes.mixed {
+            stats.eval();
+            let o = run::run_text(text, false);
+            if !outcome_matches(&o, &expected, true) {
+                return fail(
+                    format!("C08:{kind}:{op}:mixed"),
+                    format!("`{text}`: expected {}, got {}", expected.show(), o.short()),
+                );
+            }
         }
         // route 4: compound assignment (value yielded, content afterwards, unchanged on error)
         if let Some((program, _initial)) = &routes.compound {
@@ -610,7 +640,7 @@ pub fn run(session: &Session) -> i32 {
         session.run_enum(&C08, cases);
     }
     if !session.stopped() {
-        session.run_tapes(&C08, session.tier.of(24_000, 1_500_000), 12, 0);
+        session.run_tapes(&C08, session.tier.of(200_000, 20_000_000), 12, 0);
     }
     session.finish(
         "every pair of a 45-value i64 boundary grid and of a 30-value f64 grid for every scalar operator (exhaustive), plus tape-generated random operands biased to powers of two, small shift/exponent values and raw bit patterns; each case runs four routes (folded literal expression, function value called through Function::create_call, in-language call, compound assignment incl. cell content afterwards) against an i128 / IEEE oracle. Non-trivial = operand pair in a boundary class (wrap-around, MIN/-1, zero divisor, shift 63/64/-1, exponent>=2^32, signed comparison, signed zero, NaN, infinity, subnormal, extreme operand, bool table); distinct by (operator, operands).",
